@@ -8,11 +8,11 @@ log=$out/confirm.log
 export CARGO_NET_OFFLINE=true RUST_BACKTRACE=0
 {
 git -C $wt checkout -- . ; git -C $wt clean -fdq -e target
-echo "== demo on clean tree"; sh $out/demo/run.sh >/dev/null 2>&1; d0=$?; echo "demo_clean_exit=$d0"
+echo "== demo on clean tree"; bash $out/demo/run.sh >/dev/null 2>&1; d0=$?; echo "demo_clean_exit=$d0"
 git -C $wt apply $out/patch.diff || echo "APPLY FAILED"
 echo "== test suite with patch"
 (cd $wt && cargo test --workspace --no-fail-fast --offline 2>&1 | grep -E "^test result|^error" | awk '/^error/{e++} /test result/{p+=$4; f+=$6} END {print "suite_passed="p" suite_failed="f" build_errors="e+0}')
-echo "== demo with patch"; sh $out/demo/run.sh >/dev/null 2>&1; d1=$?; echo "demo_patched_exit=$d1"
+echo "== demo with patch"; bash $out/demo/run.sh >/dev/null 2>&1; d1=$?; echo "demo_patched_exit=$d1"
 git -C $wt checkout -- . ; git -C $wt clean -fdq -e target
 if [ $d0 -eq 0 ] && [ $d1 -ne 0 ]; then echo "CONFIRMED-DEMO"; else echo "NOT-CONFIRMED"; fi
 } > $log 2>&1
